@@ -49,21 +49,42 @@ DefsDefs == {<<F("f", "K12")>>, <<F("g", "K1"), F("f", "K12")>>, <<F("f", "K12")
 DefsJumps == {NJ, J(END, NoJump, NoJump), J("g", NoJump, NoJump), J(NoJump, "g", NoJump), J(NoJump, END, NoJump)}
 DefsNodes == Nodes({<<"f", "">>, <<"g", "">>, <<"h", "x">>}, {""}, DefsJumps) \cup Ends({""})
 
+(* ---- family "keys": which jumpIf keys validation accepts -----------------------------------------*)
+(* "a spec whose result is not declared by the filter kind is rejected": the keys of a jumpIf map    *)
+(* range over a universe of names placed everywhere relative to the declared results of the kinds   *)
+(* (K12 = r1 r2, K1 = r1, KC = R1 r1, K0 = nothing): the empty name, a name differing in case only   *)
+(* ("R1"), a proper prefix ("r"), an extension that sorts between two declared results ("r11"), a   *)
+(* result of another kind ("r2" on K1, "R1" on K12), a name after all declared ones ("r3"); one and  *)
+(* two keys per map; every target kind (END, later node, nothing later).  Accepted flows are run    *)
+(* with the results "", r1, R1, r2, so that KC's two results are told apart at run time as well.     *)
+KeyU == {"", "R1", "r", "r1", "r11", "r2", "r3"}
+KeyJumps(keys) == {NJ} \cup {k :> t : k \in keys, t \in {END, "g"}}
+                       \cup {("r1" :> END) @@ (k :> "g") : k \in keys \ {"r1"}}
+KeyFilters == {<<"f", "">>, <<"g", "">>, <<"h", "">>, <<"k", "">>}
+KeyNodes  == Nodes(KeyFilters, {""}, KeyJumps(KeyU)) \cup Ends({""})
+KeyDefs   == {<<F("f", "K12"), F("g", "K1"), F("h", "KC"), F("k", "K0")>>}
+
 (* ---- family "bma": before / main / after composition and namespaces ----------------------------*)
 BmaJumps == {NJ, J(END, NoJump, NoJump), J("g", NoJump, NoJump)}
 BmaNodes == Nodes({<<"f", "">>, <<"g", "">>}, {"", "n1"}, BmaJumps) \cup Ends({""})
 BmaSide  == Nodes({<<"f", "">>, <<"g", "">>}, {"", "n1"}, {NJ, J("g", NoJump, NoJump), J(NoJump, END, NoJump)}) \cup Ends({""})
+            \cup {N("f", "", "", ("r" :> END))}
 
+(* (the side flows include a jumpIf key the kind does not declare - "r2" on K1, "r" / "R1" on K12 -: *)
+(* a GlobalFilter whose before / after specification maps an undeclared result is rejected too)      *)
 (* quick tier *)
 BmaNodesQ == Nodes({<<"f", "">>, <<"g", "">>}, {""}, BmaJumps) \cup Nodes({<<"f", "">>}, {"n1"}, BmaJumps) \cup Ends({""})
-BmaSideQ == {N("f", "", "", NJ), N("g", "", "n1", J(END, NoJump, NoJump)), N(END, "", "", NJ)}
+BmaSideQ == {N("f", "", "", NJ), N("g", "", "n1", J(END, NoJump, NoJump)), N(END, "", "", NJ), N("f", "", "", ("R1" :> END))}
 
 (* ---- sampling domain (-simulate): longer flows, valid by construction (OnlyValid) ---------------*)
-SimNames == {<<"f", "">>, <<"g", "">>, <<"h", "">>, <<"f", "a">>, <<"g", "a">>, <<"h", "b">>}
+(* k is of kind KC (results R1 and r1, differing only in case): its two results are mapped to       *)
+(* different targets and told apart at run time                                                     *)
+SimNames == {<<"f", "">>, <<"g", "">>, <<"h", "">>, <<"f", "a">>, <<"g", "a">>, <<"h", "b">>, <<"k", "">>}
 SimTargets == {NoJump, END, "f", "g", "h", "a", "b"}
 SimJumps == {J(t1, t2, NoJump) : t1 \in SimTargets, t2 \in {NoJump, "b"}}
+            \cup {("R1" :> t) @@ J(t1, NoJump, NoJump) : t \in {END, "b", "g"}, t1 \in {NoJump, "a"}}
 SimNodes == Nodes(SimNames, {"", "n1", "n2"}, SimJumps) \cup Ends({"", "a"})
-SimDefs == {<<F("f", "K12"), F("g", "K1"), F("h", "K12")>>}
+SimDefs == {<<F("f", "K12"), F("g", "K1"), F("h", "K12"), F("k", "KC")>>}
 
 (* ---- out ----------------------------------------------------------------------------------------*)
 Case == [cfg |-> cfg,
